@@ -80,6 +80,9 @@ Definition api (ask : string -> list val -> val) : list api_entry := [
       Ok (VBool (cc_param_ok (k, match t with 0%N => PB b | 1%N => PS b | _ => PI n end))) | _ => bad_call end);
   ("parse_path", fun a => match a with [VB s] =>
       rmap (fun r => VL [VBool (fst r); VL (map VN (snd r))]) (parse_path s) | _ => bad_call end);
+  ("show_path", fun a => match a with [VN ab; VL l] =>
+      Ok (VB (show_path (negb (N.eqb ab 0)) (map (fun v => match v with VN n => n | _ => 0%N end) l)))
+      | _ => bad_call end);
   ("full_path", fun a => match a with [VN i] =>
       c <- nth_res all_coins i ;;
       match c_body c with
